@@ -112,6 +112,13 @@ pub open spec fn snap_member_eff(im: Addr<RaftIndexManager>, h: SnapshotHeaderDt
 
 /// A-SNAPIMAGE for the start-up chain: every file the snapshot manager names is a snapshot image
 pub open spec fn all_snapshot_images_ok() -> bool { forall|p: Seq<char>| snap_image_ok(#[trigger] disk_at_open(p)) }
+/// C01 (compaction): all seven components are asked to write their state to THE writer, each exactly once
+pub open spec fn build_effs(h: RaftDataHandler, writer: Addr<SnapshotWriterActor>) -> Seq<Eff> {
+    seq![sent(h.sequence_db, RaftApplyDataRequest::BuildSnapshot(writer)), sent(h.config, ConfigCmd::BuildSnapshot(writer)),
+        sent(h.table, TableManagerInnerReq::BuildSnapshot(writer)), sent(h.namespace, RaftApplyDataRequest::BuildSnapshot(writer)),
+        sent(h.mcp_manager, RaftApplyDataRequest::BuildSnapshot(writer)), sent(h.naming_actor, RaftApplyDataRequest::BuildSnapshot(writer)),
+        sent(h.direct_cache_manager, RaftApplyDataRequest::BuildSnapshot(writer))]
+}
 /// C01: the end of loading is announced to the five components that wait for it
 pub open spec fn complete_effs(h: RaftDataHandler) -> Seq<Eff> {
     seq![sent(h.namespace, RaftApplyDataRequest::LoadCompleted), sent(h.sequence_db, RaftApplyDataRequest::LoadCompleted),
